@@ -156,7 +156,7 @@ func generateInjectors(g *gen, pkg *packages.Package) (injectorFiles []*ast.File
 	// the output must not depend on how the package was named.
 	files := append([]*ast.File(nil), pkg.Syntax...)
 	sort.SliceStable(files, func(i, j int) bool {
-		return pkg.Fset.File(files[i].Pos()).Name() < pkg.Fset.File(files[j].Pos()).Name()
+		return sourceFileName(pkg.Fset, files[i]) < sourceFileName(pkg.Fset, files[j])
 	})
 	for _, f := range files {
 		for _, decl := range f.Decls {
@@ -175,7 +175,7 @@ func generateInjectors(g *gen, pkg *packages.Package) (injectorFiles []*ast.File
 			if len(injectorFiles) == 0 || injectorFiles[len(injectorFiles)-1] != f {
 				// This is the first injector generated for this file.
 				// Write a file header.
-				name := filepath.Base(g.pkg.Fset.File(f.Pos()).Name())
+				name := filepath.Base(sourceFileName(g.pkg.Fset, f))
 				g.p("// Injectors from %s:\n\n", name)
 				injectorFiles = append(injectorFiles, f)
 			}
@@ -217,11 +217,20 @@ func generateInjectors(g *gen, pkg *packages.Package) (injectorFiles []*ast.File
 	return injectorFiles, nil
 }
 
+// sourceFileName returns the name of the file the user wrote f in. For a
+// file that imports "C" the loader parses cgo's translated copy, which lives
+// in the build cache under a name derived from the absolute source directory;
+// its //line directives point back to the original, and token.Position
+// honors them while token.File.Name does not.
+func sourceFileName(fset *token.FileSet, f *ast.File) string {
+	return fset.Position(f.Package).Filename
+}
+
 // copyNonInjectorDecls copies any non-injector declarations from the
 // given files into the generated output.
 func copyNonInjectorDecls(g *gen, files []*ast.File, info *types.Info) {
 	for _, f := range files {
-		name := filepath.Base(g.pkg.Fset.File(f.Pos()).Name())
+		name := filepath.Base(sourceFileName(g.pkg.Fset, f))
 		first := true
 		for _, decl := range f.Decls {
 			switch decl := decl.(type) {
